@@ -450,6 +450,9 @@ class Lowerer:
         if name in self.local_alias:
             t = self.ctype(self.local_alias[name])
             return t
+        if '::' in name and name.rsplit('::', 1)[-1] in self.local_alias and '(' in name:
+            # a function-local type spelled with its enclosing function
+            return self.ctype(self.local_alias[name.rsplit('::', 1)[-1]])
         if name in self.ast.records:
             return self.record_tag(name), 'record', self.ast.records[name]
         if name in self.ast.enums:
@@ -1115,6 +1118,10 @@ class Lowerer:
             self.local_alias[c['name']] = c['type']
             return ''
         if k in ('StaticAssertDecl', 'UsingDecl', 'UsingDirectiveDecl'):
+            return ''
+        if k == 'EnumDecl':
+            ut = c.get('fixedUnderlyingType') or {'qualType': 'int'}
+            self.local_alias[c['name']] = ut
             return ''
         if k == 'CXXRecordDecl':
             raise LowerError('local class')
